@@ -119,6 +119,10 @@ type mGrammar struct {
 	Toks []string `@(A | B)*`
 }
 
+type uGrammar struct {
+	W []string `@(Word | Other)*`
+}
+
 type mTextGrammar struct {
 	Toks []string `@(Ident | Int | "+")*`
 }
@@ -225,6 +229,67 @@ func mapperRun(args []string) error {
 				bad++
 				fmt.Fprintf(w, "MISMATCH\t%s\tUpper\ttoken %d is %v, expected value %q at %v\n", sc.Text(), i, ut[i], want, pt[i].Pos)
 				break
+			}
+		}
+	}
+	// Upper on texts whose lower-case letters are not ASCII; mixed; already upper; digits
+	{
+		wl := lexer.MustSimple([]lexer.SimpleRule{{Name: "Word", Pattern: `[\pL\pN]+`}, {Name: "Other", Pattern: `[^\s\pL\pN]+`}, {Name: "ws", Pattern: `\s+`}})
+		up, err1 := participle.Build[uGrammar](participle.Lexer(wl), participle.Upper("Word"))
+		upAll, err2 := participle.Build[uGrammar](participle.Lexer(wl), participle.Upper())
+		if err1 != nil || err2 != nil {
+			return fmt.Errorf("upper parsers: %v %v", err1, err2)
+		}
+		for _, in := range []string{"ñ", "CAFé", "привет", "ΑΒγ", "abc", "ABC", "straße x1", "ǆ ß ÿ", "x-ñ+y"} {
+			for name, p := range map[string]*participle.Parser[uGrammar]{"Upper(Word)": up, "Upper()": upAll} {
+				v, err := p.ParseString("", in)
+				n++
+				want := strings.ToUpper(strings.Join(strings.Fields(in), " "))
+				got := "err"
+				if err == nil {
+					got = strings.Join(v.W, " ")
+				}
+				if name == "Upper(Word)" {
+					// only Word tokens are mapped: Other tokens keep their text (they contain no letters anyway)
+					want = strings.ToUpper(strings.Join(strings.Fields(in), " "))
+				}
+				if strings.ReplaceAll(got, " ", "") != strings.ReplaceAll(want, " ", "") {
+					bad++
+					fmt.Fprintf(w, "MISMATCH\t%s\t%s\ttokens %q, expected %q\n", in, name, got, want)
+				}
+			}
+		}
+	}
+	// a catch-all mapper that changes a token's TYPE: the typed mappers are chosen by the type the lexer gave the token
+	{
+		var log []string
+		retype := participle.Map(func(t lexer.Token) (lexer.Token, error) {
+			if t.Value == "a" {
+				t.Type = mLexer.Symbols()["B"]
+			}
+			return t, nil
+		})
+		onA := participle.Map(func(t lexer.Token) (lexer.Token, error) { log = append(log, "A:"+t.Value); return t, nil }, "A")
+		onB := participle.Map(func(t lexer.Token) (lexer.Token, error) { log = append(log, "B:"+t.Value); return t, nil }, "B")
+		p, err := participle.Build[mGrammar](participle.Lexer(mLexer), participle.Elide("C"), retype, onA, onB)
+		if err != nil {
+			return err
+		}
+		for _, in := range []string{"a", "b", "ab", "bca"} {
+			log = nil
+			_, _ = p.Lex("", strings.NewReader(in))
+			want := []string{}
+			for _, ch := range in {
+				if ch == 'a' {
+					want = append(want, "A:a")
+				} else if ch == 'b' {
+					want = append(want, "B:b")
+				}
+			}
+			n++
+			if strings.Join(log, " ") != strings.Join(want, " ") {
+				bad++
+				fmt.Fprintf(w, "MISMATCH\t%s\tretyping catch-all mapper\ttyped mappers saw %q, expected %q (selection by the lexed type)\n", in, log, want)
 			}
 		}
 	}
